@@ -428,7 +428,7 @@ pub fn snapshot_race(v: &Verdicts, rounds: usize) -> (u64, u64) {
         nundb::disk_ops::verif_declutter(&dbs);
         let stop = AtomicBool::new(false);
         let snaps = std::sync::atomic::AtomicU64::new(0);
-        let mut last: Vec<BTreeMap<String, String>> = vec![];
+        let mut last: Vec<BTreeMap<String, Option<String>>> = vec![];
         std::thread::scope(|sc| {
             let hs: Vec<_> = (0..WRITERS)
                 .map(|w| {
@@ -443,9 +443,17 @@ pub fn snapshot_race(v: &Verdicts, rounds: usize) -> (u64, u64) {
                         // pass is every key's last write, so whatever the race did to it stays visible
                         for pass in 0..3 {
                             for i in 0..KEYS {
-                                let (k, val) = (format!("w{}k{}", w, i), format!("r{}p{}", r, pass));
-                                if !s.call(&dbs, &format!("set {} {}", k, val)).is_error() {
-                                    mine.insert(k, val);
+                                // mostly sets, now and then a remove (a removed key must stay removed whatever the snapshot does)
+                                let k = format!("w{}k{}", w, i);
+                                if (i * 7 + pass * 3 + w + r) % 5 == 0 {
+                                    if !s.call(&dbs, &format!("remove {}", k)).is_error() {
+                                        mine.insert(k, None);
+                                    }
+                                } else {
+                                    let val = format!("r{}p{}", r, pass);
+                                    if !s.call(&dbs, &format!("set {} {}", k, val)).is_error() {
+                                        mine.insert(k, Some(val));
+                                    }
                                 }
                                 let until = std::time::Instant::now() + std::time::Duration::from_micros(15);
                                 while std::time::Instant::now() < until {
@@ -491,13 +499,14 @@ pub fn snapshot_race(v: &Verdicts, rounds: usize) -> (u64, u64) {
         let mut lost = vec![];
         for m in &last {
             for (k, val) in m {
-                if mem.get(k).map(|x| &x.0) != Some(val) {
+                // (a removed key is not in the image: tombstones are filtered out)
+                if mem.get(k).map(|x| &x.0) != val.as_ref() {
                     lost.push(json!([k, val, mem.get(k)]));
                 }
             }
         }
         if !lost.is_empty() {
-            v.report(json!({"check": "snapshot-race", "problem": "acknowledged-write-rolled-back-in-memory-by-a-concurrent-snapshot"}), json!({"round": r, "keys_affected": lost.len(), "first_key_last_acknowledged_value_memory": lost.iter().take(5).collect::<Vec<_>>()}));
+            v.report(json!({"check": "snapshot-race", "problem": if lost.iter().any(|l| l[1].is_null()) { "acknowledged-remove-undone-in-memory-by-a-concurrent-snapshot" } else { "acknowledged-write-rolled-back-in-memory-by-a-concurrent-snapshot" }}), json!({"round": r, "keys_affected": lost.len(), "first_key_last_acknowledged_value_memory": lost.iter().take(5).collect::<Vec<_>>()}));
             continue;
         }
         // (2) one more snapshot with nobody writing, then the restart
